@@ -86,6 +86,7 @@ func corpus3(r *Run, variants int, fn func(w *W, v *spec.V3, L int, rng *rand.Ra
 			}
 		}
 	})
+	presencePatterns(r, 1+variants/16, fn)
 }
 
 // oneTransposition renders v at level with exactly two tokens exchanged, preferring two tokens of the same width.
